@@ -15,6 +15,7 @@ import AnthemModel.Model.Files
 import AnthemModel.Model.Status
 import AnthemModel.Model.Print
 import AnthemModel.Model.AspParse
+import AnthemModel.Model.FolParse
 import AnthemModel.Model.TffParse
 import Driver.Search
 open Anthem
@@ -219,6 +220,21 @@ def respond (req : Sexp) : Sexp :=
     | .ok st => .list [.atom "ok", .atom ((reprStr st).replace "Anthem.Status." "")]
     | .missing => .atom "missing"
     | .unknown w => .list [.atom "unknown", .str w]
+  | .list [.atom "fol_parse", .atom kind, .str text] =>
+    match kind with
+    | "theory" =>
+      match Fol.parseTheory text with
+      | some t => .list [.atom "ok", theoryToSexp t]
+      | none => .list [.atom "error"]
+    | "spec" =>
+      match Fol.parseSpecification text with
+      | some t => .list [.atom "ok", .list (t.map SAnn.toSexp)]
+      | none => .list [.atom "error"]
+    | "ug" =>
+      match Fol.parseUserGuide text with
+      | some t => .list [.atom "ok", .list (t.map UGEntry.toSexp)]
+      | none => .list [.atom "error"]
+    | _ => bad
   | .list [.atom "asp_parse", .str text] =>
     match Asp.parseProgram text with
     | some p => .list [.atom "ok", Asp.programToSexp p]
